@@ -231,7 +231,6 @@ func cmdVC(args []string) {
 	}
 }
 
-
 // closureOf computes the package-local call-graph closure of the given roots (static calls, closures,
 // and interface invokes resolved to every package method of that name implementing the interface).
 func closureOf(d *Driver, roots []string) []string {
